@@ -1,8 +1,356 @@
 import PymtlVerif.Driver.Sexp
-/-! Handler `sv` (stub: not built yet). -/
-namespace PV.Driver.Sv
-open PV
+import PymtlVerif.Model.SVMod
+import PymtlVerif.Model.VTr
+import PymtlVerif.Model.Flat
+/-!
+Handler `sv`: executable face of `Model/SV.lean` (and `Model/VTr.lean`, `Model/Flat.lean`) for the
+C03 / C12 correspondence checks.
 
-def handle (_args : List Sexp) : Option String := none
+Requests
+* `sv sim <design> <top> <cycles> <obs>` — elaborate the parsed design, report elaboration errors,
+  driver conflicts and undriven variables, simulate (`settle`, sample, `tick`, sample per cycle)
+  under both readings of the size cast.
+* `sv portmap <yosys?> <path> <dims> <type>` — `Flat.portLeaves`: how one PyMTL port appears in the
+  emitted module (name, unpacked element, slice of the packed value).
+* `sv blk <backend> <module> <rtlir-block> <parsed-block> <stores>` — semantic tie between the real
+  translator and `VTr.trStmt`: execute the parsed always-block and the translation of the block's
+  typed RTLIR by the model on every given store (both cast readings) and compare the results.
+-/
+namespace PV.Driver.Sv
+open PV PV.SV
+
+/-! ### S-expression → syntax -/
+
+partial def pty? : Sexp → Option PTy
+  | .list [.atom "vec", w] => do some (.vec (← w.nat?))
+  | .list [.atom "arr", n, t] => do some (.arr (← n.nat?) (← pty? t))
+  | .list (.atom "struct" :: .atom name :: fs) => do
+      let fs ← fs.mapM fun f => match f with
+        | .list [.atom g, t] => do some (g, ← pty? t)
+        | _ => none
+      some (.struct name (fs.foldr (fun (g, t) acc => .cons g t acc) .nil))
+  | _ => none
+
+def unop? : String → Option UnOp
+  | "bnot" => some .bnot | "neg" => some .neg | "plus" => some .plus | "lnot" => some .lnot
+  | "rand" => some .rand | "ror" => some .ror | "rxor" => some .rxor
+  | "rnand" => some .rnand | "rnor" => some .rnor | "rxnor" => some .rxnor | _ => none
+
+def binop? : String → Option BinOp
+  | "add" => some .add | "sub" => some .sub | "mul" => some .mul | "div" => some .div | "mod" => some .mod
+  | "pow" => some .pow | "shl" => some .shl | "shr" => some .shr | "band" => some .band | "bor" => some .bor
+  | "bxor" => some .bxor | "bxnor" => some .bxnor | "eq" => some .eq | "ne" => some .ne | "lt" => some .lt
+  | "le" => some .le | "gt" => some .gt | "ge" => some .ge | "land" => some .land | "lor" => some .lor
+  | _ => none
+
+/-- `{a, b, c}` → `concat a (concat b c)`; `{a}` → `cat1 a` -/
+def catOf : List Expr → Option Expr
+  | [] => none
+  | [e] => some (.cat1 e)
+  | [a, b] => some (.concat a b)
+  | a :: rest => do some (.concat a (← catOf rest))
+
+partial def expr? : Sexp → Option Expr
+  | .list [.atom "lit", w, v] => do some (.lit (← w.nat?) (← v.nat?))
+  | .list [.atom "num", v] => do some (.num (← v.nat?))
+  | .list [.atom "id", .atom x] => some (.ident x)
+  | .list [.atom "mem", e, .atom f] => do some (.member (← expr? e) f)
+  | .list [.atom "idx", e, i] => do some (.index (← expr? e) (← expr? i))
+  | .list [.atom "rng", e, h, l] => do some (.range (← expr? e) (← expr? h) (← expr? l))
+  | .list [.atom "psel", e, b, w] => do some (.plusSel (← expr? e) (← expr? b) (← expr? w))
+  | .list (.atom "cat" :: es) => do catOf (← es.mapM expr?)
+  | .list (.atom "rep" :: n :: es) => do
+      let inner ← catOf (← es.mapM expr?)
+      some (.repl (← expr? n) inner)
+  | .list [.atom "un", .atom op, e] => do some (.un (← unop? op) (← expr? e))
+  | .list [.atom "bin", .atom op, a, b] => do some (.bin (← binop? op) (← expr? a) (← expr? b))
+  | .list [.atom "cond", c, t, f] => do some (.cond (← expr? c) (← expr? t) (← expr? f))
+  | .list [.atom "cast", w, e] => do some (.cast (← w.nat?) (← expr? e))
+  | _ => none
+
+partial def stmt? : Sexp → Option Stmt
+  | .list (.atom "block" :: ss) => do some (seqOf (← ss.mapM stmt?))
+  | .list [.atom "if", c, t, e] => do some (.ite (← expr? c) (← stmt? t) (← stmt? e))
+  | .list [.atom "for", d, .atom v, i, c, st, b] => do
+      some (.for_ (← d.bool?) v (← expr? i) (← expr? c) (← expr? st) (← stmt? b))
+  | .list [.atom "b", l, r] => do some (.blocking (← expr? l) (← expr? r))
+  | .list [.atom "nb", l, r] => do some (.nonblocking (← expr? l) (← expr? r))
+  | _ => none
+
+def decl? (t dims : Sexp) : Option Decl := do some ⟨← pty? t, ← dims.nats?⟩
+
+def item? : Sexp → Option Item
+  | .list [.atom "comb", .atom n, b] => do some (.comb n (← stmt? b))
+  | .list [.atom "ff", .atom n, .atom clk, b] => do some (.ff n clk (← stmt? b))
+  | .list [.atom "assign", l, r] => do some (.assign (← expr? l) (← expr? r))
+  | .list [.atom "inst", .atom m, .atom i, .list conns] => do
+      let cs ← conns.mapM fun c => match c with
+        | .list [.atom p, e] => do some (p, ← expr? e)
+        | _ => none
+      some (.inst m i cs)
+  | _ => none
+
+def module? : Sexp → Option Module
+  | .list [.atom "module", .atom name, .list (.atom "ports" :: ps), .list (.atom "decls" :: ds),
+           .list (.atom "params" :: qs), .list (.atom "items" :: is)] => do
+      let ports ← ps.mapM fun p => match p with
+        | .list [.atom d, .atom x, t, dims] => do
+            let dir ← (if d == "input" then some Dir.input else if d == "output" then some Dir.output else none)
+            some (⟨dir, x, ← decl? t dims⟩ : Port)
+        | _ => none
+      let decls ← ds.mapM fun d => match d with
+        | .list [.atom x, t, dims] => do some (x, ← decl? t dims)
+        | _ => none
+      let params ← qs.mapM fun q => match q with
+        | .list [.atom x, t, dims, .list init] => do some (⟨x, ← decl? t dims, ← init.mapM expr?⟩ : Param)
+        | _ => none
+      some ⟨name, ports, decls, params, ← is.mapM item?⟩
+  | _ => none
+
+def design? : Sexp → Option (List Module)
+  | .list (.atom "design" :: ms) => ms.mapM module?
+  | _ => none
+
+/-! ### static well-formedness of the elaborated design -/
+
+/-- every select chain resolves against the declarations (a select of a concatenation is a value select) -/
+partial def illTyped (Γ : Env) : Expr → List String
+  | .lit _ _ => [] | .num _ => []
+  | .ident x => if (Γ x).isNone then ["undeclared:" ++ x] else []
+  | .member e f =>
+    illTyped Γ e ++ (if (typeOf Γ (.member e f)).isNone then ["no-member:" ++ f] else [])
+  | .index e i =>
+    let isCat := match e with | .concat _ _ => true | .cat1 _ => true | .repl _ _ => true | _ => false
+    illTyped Γ e ++ illTyped Γ i ++ (if !isCat && (typeOf Γ (.index e i)).isNone then ["bad-index"] else [])
+  | .range e h l =>
+    let isCat := match e with | .concat _ _ => true | .cat1 _ => true | .repl _ _ => true | _ => false
+    illTyped Γ e ++ (if (constVal h).isNone || (constVal l).isNone then ["non-constant-range"] else [])
+      ++ (if !isCat && (typeOf Γ (.range e h l)).isNone then ["bad-range"] else [])
+  | .plusSel e b w =>
+    illTyped Γ e ++ illTyped Γ b ++ (if (typeOf Γ (.plusSel e b w)).isNone then ["bad-part-select"] else [])
+  | .cat1 e => illTyped Γ e
+  | .concat a b => illTyped Γ a ++ illTyped Γ b
+  | .repl n e => (if (constVal n).isNone then ["non-constant-replication"] else []) ++ illTyped Γ e
+  | .un _ e => illTyped Γ e
+  | .bin _ a b => illTyped Γ a ++ illTyped Γ b
+  | .cond c t f => illTyped Γ c ++ illTyped Γ t ++ illTyped Γ f
+  | .cast _ e => illTyped Γ e
+
+partial def illTypedStmt (Γ : Env) : Stmt → List String
+  | .skip => []
+  | .blocking l r => illTyped Γ l ++ illTyped Γ r ++ (if (typeOf Γ l).isNone then ["bad-lvalue"] else [])
+  | .nonblocking l r => illTyped Γ l ++ illTyped Γ r ++ (if (typeOf Γ l).isNone then ["bad-lvalue"] else [])
+  | .ite c t e => illTyped Γ c ++ illTypedStmt Γ t ++ illTypedStmt Γ e
+  | .seq a b => illTypedStmt Γ a ++ illTypedStmt Γ b
+  | .for_ d v i c st b =>
+    let Γ' := if d then Γ.extend v intDecl else Γ
+    (if (Γ' v).isNone then ["undeclared:" ++ v] else []) ++ illTyped Γ' i ++ illTyped Γ' c ++ illTyped Γ' st ++ illTypedStmt Γ' b
+
+def elabErrors (F : Flat) (Γ : Env) : List String :=
+  (F.errors ++ F.procs.flatMap fun p => (illTypedStmt Γ p.body).map fun e => e ++ "@" ++ p.name).eraseDups
+
+/-! ### simulation request -/
+
+def showNats (xs : List Nat) : String := "(" ++ " ".intercalate (xs.map toString) ++ ")"
+def showStrs (xs : List String) : String := "(" ++ " ".intercalate xs ++ ")"
+
+/-- all identifiers of a process are declared and its targets resolve -/
+def undeclared (Γ : Env) (F : Flat) : List String :=
+  (F.procs.flatMap fun p => (rset p.body)).filter (fun x => (Γ x).isNone) |>.eraseDups
+
+structure Cyc where
+  sets : List (String × Nat × Nat)
+
+def cycles? (x : Sexp) : Option (List Cyc) := do
+  let cs ← x.list?
+  cs.mapM fun c => do
+    let ss ← c.list?
+    let sets ← ss.mapM fun s => match s with
+      | .list [.atom n, e, v] => do some (n, ← e.nat?, ← v.nat?)
+      | _ => none
+    some ⟨sets⟩
+
+def sample (_F : Flat) (Γ : Env) (σ : Store) (obs : List String) : String :=
+  "(" ++ " ".intercalate (obs.map fun x => match Γ x with
+      | some d => showNats (readVar σ x d)
+      | none => "()") ++ ")"
+
+/-- trace of one run: per cycle "(after-settle after-tick)"; stops with a tag on instability -/
+def runSim (castB : Bool) (F : Flat) (Γ : Env) (cycles : List Cyc) (obs : List String) : String := Id.run do
+  let mut s : XS := ⟨initStore F.decls, [], false⟩
+  let mut out : Array String := #[]
+  let mut k := 0
+  for c in cycles do
+    for (n, e, v) in c.sets do
+      s := { s with σ := s.σ.set (n, e) v }
+    match settle castB F Γ s with
+    | none => return "(unstable " ++ toString k ++ " " ++ " ".intercalate out.toList ++ ")"
+    | some s1 =>
+      let a := sample F Γ s1.σ obs
+      match tick castB F Γ s1 with
+      | none => return "(unstable " ++ toString k ++ " " ++ " ".intercalate out.toList ++ ")"
+      | some s2 =>
+        if s2.fuelOut then return "(fuel " ++ toString k ++ " " ++ " ".intercalate out.toList ++ ")"
+        out := out.push ("(" ++ a ++ " " ++ sample F Γ s2.σ obs ++ ")")
+        s := s2
+    k := k + 1
+  return "(trace " ++ " ".intercalate out.toList ++ ")"
+
+def procLabel (F : Flat) (i : Nat) : String :=
+  -- positions 0..inputs-1 are the environment drivers of the input ports
+  if i < F.inputs.length then "input:" ++ (F.inputs.getD i "?")
+  else match F.procs[i - F.inputs.length]? with
+    | some p => (match p.kind with | .comb => "always_comb:" | .ff => "always_ff:" | .assign => "assign:" | .param => "localparam:") ++ p.name
+    | none => "?"
+
+def simReply (mods : List Module) (top : String) (cycles : List Cyc) (obs : List String) : String :=
+  let F := flatten mods top
+  let Γ := envOf F.decls
+  let errs := elabErrors F Γ
+  let ws := F.wsets
+  let confl := driverConflicts ws
+  let multi := confl.map fun (i, j, x) => "(" ++ x ++ " " ++ procLabel F i ++ " " ++ procLabel F j ++ ")"
+  let und := undriven F ws
+  let t0 := runSim false F Γ cycles obs
+  let t1 := runSim true F Γ cycles obs
+  "ok (errors " ++ " ".intercalate errs ++ ") (multi " ++ " ".intercalate multi ++ ") (undriven " ++
+    " ".intercalate und ++ ") (castB " ++ (if t0 == t1 then "same" else "diff") ++ ") " ++ t0
+
+/-! ### port map -/
+
+def tok? : Sexp → Option Flat.Tok
+  | .list [.atom "fld", .atom f] => some (.fld f)
+  | .list [.atom "idx", i] => do some (.idx (← i.nat?))
+  | _ => none
+
+def portmapReply (yosys : Bool) (path : List Flat.Tok) (dims : List Nat) (ty : PTy) : String :=
+  "ok " ++ " ".intercalate ((Flat.portLeaves yosys path dims ty).map fun l =>
+    s!"({l.svName} {l.elem} {l.msb} {l.lsb})")
+
+/-! ### typed RTLIR (Model/VTr.lean) -/
+open PV.VTr in
+def rbin? : String → Option RBin
+  | "add" => some .add | "sub" => some .sub | "mul" => some .mul | "mod" => some .mod | "and" => some .and
+  | "or" => some .or | "xor" => some .xor | "shl" => some .shl | "shr" => some .shr | _ => none
+open PV.VTr in
+def rcmp? : String → Option RCmp
+  | "eq" => some .eq | "ne" => some .ne | "lt" => some .lt | "le" => some .le | "gt" => some .gt | "ge" => some .ge
+  | _ => none
+open PV.VTr in
+def rop? : String → Option ROp
+  | "and" => some .and | "or" => some .or | "xor" => some .xor | _ => none
+
+open PV.VTr in
+def rcatOf : List RExpr → Option RExpr
+  | [] => none
+  | [e] => some (.cat1 e)
+  | [a, b] => some (.concat a b)
+  | a :: rest => do some (.concat a (← rcatOf rest))
+
+open PV.VTr in
+partial def rexpr? : Sexp → Option RExpr
+  | .list [.atom "num", w, v] => do some (.num (← w.nat?) (← v.nat?))
+  | .list [.atom "castC", w, v] => do some (.castC (← w.nat?) (← v.nat?))
+  | .list [.atom "cast", w, e] => do some (.cast (← w.nat?) (← rexpr? e))
+  | .list [.atom "sig", .atom x, w] => do some (.sig x (← w.nat?))
+  | .list [.atom "const", .atom x, w, v] => do some (.const x (← w.nat?) (← v.nat?))
+  | .list [.atom "freevar", .atom x, w, v] => do some (.freevar x (← w.nat?) (← v.nat?))
+  | .list [.atom "loopvar", .atom b, .atom x, w] => do some (.loopvar b x (← w.nat?))
+  | .list [.atom "tmpvar", .atom x, w, ex] => do some (.tmpvar x (← w.nat?) (← ex.bool?))
+  | .list [.atom "field", e, .atom f, w] => do some (.field (← rexpr? e) f (← w.nat?))
+  | .list [.atom "index", e, i, w] => do some (.index (← rexpr? e) (← rexpr? i) (← w.nat?))
+  | .list [.atom "slice", e, lo, hi, lw, uw] => do
+      some (.slice (← rexpr? e) (← lo.nat?) (← hi.nat?) (← lw.nat?) (← uw.nat?))
+  | .list [.atom "partsel", e, b, w] => do some (.partsel (← rexpr? e) (← rexpr? b) (← w.nat?))
+  | .list (.atom "cat" :: es) => do rcatOf (← es.mapM rexpr?)
+  | .list [.atom "zext", w, e] => do some (.zext (← w.nat?) (← rexpr? e))
+  | .list [.atom "sext", w, e] => do some (.sext (← w.nat?) (← rexpr? e))
+  | .list [.atom "trunc", w, e] => do some (.trunc (← w.nat?) (← rexpr? e))
+  | .list [.atom "reduce", .atom op, e] => do some (.reduce (← rop? op) (← rexpr? e))
+  | .list [.atom "inv", e] => do some (.inv (← rexpr? e))
+  | .list [.atom "bin", .atom op, a, b] => do some (.bin (← rbin? op) (← rexpr? a) (← rexpr? b))
+  | .list [.atom "cmp", .atom op, a, b] => do some (.cmp (← rcmp? op) (← rexpr? a) (← rexpr? b))
+  | .list [.atom "ifexp", c, t, f] => do some (.ifexp (← rexpr? c) (← rexpr? t) (← rexpr? f))
+  | _ => none
+
+open PV.VTr in
+def rseqOf : List RStmt → RStmt
+  | [] => .skip
+  | [s] => s
+  | s :: rest => .seq s (rseqOf rest)
+
+open PV.VTr in
+partial def rstmt? : Sexp → Option RStmt
+  | .list (.atom "seq" :: ss) => do some (rseqOf (← ss.mapM rstmt?))
+  | .list [.atom "assign", b, l, r] => do some (.assign (← b.bool?) (← rexpr? l) (← rexpr? r))
+  | .list [.atom "if", c, t, e] => do some (.ite (← rexpr? c) (← rstmt? t) (← rstmt? e))
+  | .list [.atom "for", .atom blk, .atom x, a, b, st, neg, sw, ew, pw, body] => do
+      some (.for_ blk x (← a.nat?) (← b.nat?) (← st.nat?) (← neg.bool?) (← sw.nat?) (← ew.nat?) (← pw.nat?) (← rstmt? body))
+  | _ => none
+
+def backend? : Sexp → Option VTr.Backend
+  | .atom "verilog" => some .verilog
+  | .atom "yosys" => some .yosys
+  | _ => none
+
+/-- declarations of one module: ports, variables, localparams -/
+def moduleDecls (m : Module) : List (String × Decl) :=
+  (m.ports.map fun q => (q.name, q.decl)) ++ m.decls ++ (m.params.map fun q => (q.name, q.decl))
+
+def storeOf (decls : List (String × Decl)) (sets : List (String × Nat × Nat)) : Store :=
+  sets.foldl (fun σ (n, e, v) => σ.set (n, e) v) (initStore decls)
+
+def dumpStore (decls : List (String × Decl)) (σ : Store) : List (String × List Nat) :=
+  decls.map fun (x, d) => (x, readVar σ x d)
+
+/-- run both statements on one store; `none` = same final store (pending updates committed) -/
+def blkDiff (cb : Bool) (decls : List (String × Decl)) (Γ : Env) (params : List Proc) (a b : Stmt)
+    (sets : List (String × Nat × Nat)) : Option String :=
+  let σ0 := (runProcs cb Γ params ⟨storeOf decls sets, [], false⟩).σ
+  let ra := exec cb Γ a ⟨σ0, [], false⟩
+  let rb := exec cb Γ b ⟨σ0, [], false⟩
+  let da := dumpStore decls (commit ra.σ ra.nba)
+  let db := dumpStore decls (commit rb.σ rb.nba)
+  if ra.fuelOut != rb.fuelOut then some "fuel" else
+  match (da.zip db).find? (fun (x, y) => x.2 != y.2) with
+  | some (x, y) => some s!"({x.1} {showNats x.2} {showNats y.2})"
+  | none => none
+
+def blkReply (be : VTr.Backend) (m : Module) (r : VTr.RStmt) (parsed : Stmt) (stores : List (List (String × Nat × Nat))) : String :=
+  let decls := moduleDecls m
+  let Γ := envOf decls
+  let params := m.params.map (paramProc "")
+  let model := VTr.trStmt be r
+  let errs := (illTypedStmt Γ model).eraseDups
+  if !errs.isEmpty then "model-ill-typed " ++ " ".intercalate errs else
+  let rec go (k : Nat) : List (List (String × Nat × Nat)) → String
+    | [] => "same"
+    | s :: rest =>
+      match blkDiff false decls Γ params parsed model s with
+      | some d => s!"diff {k} castA {d}"
+      | none =>
+        match blkDiff true decls Γ params parsed model s with
+        | some d => s!"diff {k} castB {d}"
+        | none => go (k + 1) rest
+  go 0 stores
+
+def sets? (x : Sexp) : Option (List (String × Nat × Nat)) := do
+  let ss ← x.list?
+  ss.mapM fun s => match s with
+    | .list [.atom n, e, v] => do some (n, ← e.nat?, ← v.nat?)
+    | _ => none
+
+def handle (args : List Sexp) : Option String :=
+  match args with
+  | [.atom "portmap", y, path, dims, ty] => do
+      some (portmapReply (← y.bool?) (← (← path.list?).mapM tok?) (← dims.nats?) (← pty? ty))
+  | [.atom "blk", be, m, r, parsed, stores] => do
+      some (blkReply (← backend? be) (← module? m) (← rstmt? r) (← stmt? parsed) (← (← stores.list?).mapM sets?))
+  | [.atom "sim", d, .atom top, cyc, obs] => do
+      let mods ← design? d
+      let cycles ← cycles? cyc
+      let obs ← (← obs.list?).mapM Sexp.sym?
+      some (simReply mods top cycles obs)
+  | _ => none
 
 end PV.Driver.Sv
